@@ -65,8 +65,8 @@ Proof. destruct a, b; simpl; split; congruence. Qed.
 
 Lemma input_eqb_eq a b : input_eqb a b = true <-> a = b.
 Proof.
-  unfold input_eqb. rewrite !andb_true_iff, src_eqb_eq, (list_eqb_spec Nat.eqb Nat.eqb_eq), bool_eqb_eq.
-  destruct a, b; simpl. split; [intros [[-> ->] ->]; reflexivity | intros E; injection E; auto].
+  unfold input_eqb. rewrite !andb_true_iff, src_eqb_eq, (list_eqb_spec Nat.eqb Nat.eqb_eq), !bool_eqb_eq.
+  destruct a, b; simpl. split; [intros [[[-> ->] ->] ->]; reflexivity | intros E; injection E; auto].
 Qed.
 
 Lemma optl_eqb_eq a b : optl_eqb a b = true <-> a = b.
@@ -85,7 +85,7 @@ Qed.
 
 Lemma make_key_inj d ins d' ins' :
   make_key d ins = make_key d' ins' <->
-  nd_def d = nd_def d' /\ nd_sch d = nd_sch d' /\ nd_scal d = nd_scal d' /\ norm_inputs ins = norm_inputs ins'.
+  nd_def d = nd_def d' /\ nd_sch d = nd_sch d' /\ nd_scal d = nd_scal d' /\ key_inputs ins = key_inputs ins'.
 Proof.
   unfold make_key. split.
   - intros E. injection E. auto.
@@ -93,8 +93,8 @@ Proof.
 Qed.
 
 (* what equality of normalised input lists means, slot by slot *)
-Lemma norm_from_eq k ins ins' :
-  norm_from k ins = norm_from k ins' <->
+Lemma key_from_eq k ins ins' :
+  key_from k ins = key_from k ins' <->
   length ins = length ins' /\
   forall j a b, nth_error ins j = Some a -> nth_error ins' j = Some b ->
     in_src a = in_src b /\ in_rank a = in_rank b /\
@@ -185,6 +185,12 @@ Proof.
   - intros H. destruct (IH H) as (k'' & Hin & Hk). exists k''. auto.
 Qed.
 
+Lemma key_from_clear k ins : key_from k (map clear_passive ins) = key_from k ins.
+Proof. revert k; induction ins as [|i r IH]; intros k; simpl; auto. rewrite IH. reflexivity. Qed.
+
+Lemma key_inputs_eff d rins : key_inputs (eff_inputs d rins) = key_inputs rins.
+Proof. unfold eff_inputs, key_inputs. destruct (nd_uniq d); auto. apply key_from_clear. Qed.
+
 (* ------------------------------------------------------------------ the wiring invariant *)
 (* statement l was given instance i, and i is configured exactly as l asks *)
 Definition inst_matches (prog : list stmt) (w : wst) (l i : nat) : Prop :=
@@ -193,7 +199,7 @@ Definition inst_matches (prog : list stmt) (w : wst) (l i : nat) : Prop :=
     resolve_inputs (w_env w) (w_phs w) ins = Some rins /\
     nd_def (i_def it) = nd_def d /\ nd_sch (i_def it) = nd_sch d /\ nd_scal (i_def it) = nd_scal d /\
     interns (i_def it) = interns d /\
-    norm_inputs (i_ins it) = norm_inputs rins /\
+    key_inputs (i_ins it) = key_inputs rins /\
     (interns d = false -> i_label it = l).
 
 Definition w_le (w w' : wst) : Prop :=
@@ -238,7 +244,10 @@ Proof.
   destruct s as [d ins| |h l' p|a b]; cbn [wire_stmt] in Hw.
   - (* node *)
     unfold wire_node in Hw.
-    destruct (resolve_inputs (w_env w) (w_phs w) ins) as [rins|] eqn:R; [|discriminate].
+    destruct (resolve_inputs (w_env w) (w_phs w) ins) as [rins0|] eqn:R; [|discriminate].
+    cbv zeta in Hw. set (rins := eff_inputs d rins0) in *.
+    assert (Hkeff : key_inputs rins = key_inputs rins0) by apply key_inputs_eff.
+    destruct (all_passive rins); [discriminate|].
     destruct (if sh && interns d then tab_find (make_key d rins) (w_tab w) else None) as [i|] eqn:T.
     + (* shared with an existing instance *)
       injection Hw as <-.
@@ -255,10 +264,9 @@ Proof.
       constructor; cbn [w_insts w_tab w_env w_phs w_binds w_deps].
       * intros l0 i0. rewrite alookup_cons. destruct (l =? l0) eqn:E.
         -- apply Nat.eqb_eq in E. subst l0. intros H. injection H as <-.
-           exists d, ins, rins, it. cbn [w_insts w_env w_phs]. repeat split; auto.
-           ++ eapply resolve_inputs_mono; [apply env_le_cons; exact Hlnone | apply phs_le_refl | exact R].
-           ++ congruence.
-           ++ congruence.
+           exists d, ins, rins0, it. cbn [w_insts w_env w_phs]. repeat split; auto; try exact Hkeff.
+           all: try congruence.
+           eapply resolve_inputs_mono; [apply env_le_cons; exact Hlnone | apply phs_le_refl | exact R].
         -- intros H. eapply inst_matches_mono; [exact Hle | eapply wi_env; eauto].
       * intros l0 i0. rewrite alookup_cons. destruct (l =? l0) eqn:E.
         -- apply Nat.eqb_eq in E. subst. intros _. left; reflexivity.
@@ -284,7 +292,7 @@ Proof.
       constructor; cbn [w_insts w_tab w_env w_phs w_binds w_deps].
       * intros l0 i0. rewrite alookup_cons. destruct (l =? l0) eqn:E.
         -- apply Nat.eqb_eq in E. subst l0. intros H. injection H as <-.
-           exists d, ins, rins, it. cbn [w_insts w_env w_phs]. repeat split; auto.
+           exists d, ins, rins0, it. cbn [w_insts w_env w_phs]. repeat split; auto; try exact Hkeff.
            ++ apply nth_error_snoc.
            ++ eapply resolve_inputs_mono; [apply env_le_cons; exact Hlnone | apply phs_le_refl | exact R].
         -- intros H. eapply inst_matches_mono; [exact Hle | eapply wi_env; eauto].
@@ -409,7 +417,7 @@ Lemma shared_same_config prog done w l1 l2 i :
     nth_error prog l1 = Some (StNode d1 ins1) /\ nth_error prog l2 = Some (StNode d2 ins2) /\
     resolve_inputs (w_env w) (w_phs w) ins1 = Some r1 /\ resolve_inputs (w_env w) (w_phs w) ins2 = Some r2 /\
     nd_def d1 = nd_def d2 /\ nd_sch d1 = nd_sch d2 /\ nd_scal d1 = nd_scal d2 /\
-    norm_inputs r1 = norm_inputs r2 /\
+    key_inputs r1 = key_inputs r2 /\
     (l1 <> l2 -> interns d1 = true /\ interns d2 = true).
 Proof.
   intros I H1 H2.
@@ -491,14 +499,14 @@ Lemma unf_inputs_resolve (G P : nat -> tree) gb pb e p :
              | Some (i, q) => exists l, pb h = Some (l, q) /\ alookup l e = Some i
              | None => pb h = None
              end) ->
-  forall ins rins, resolve_inputs e p ins = Some rins -> unf_inputs G gb rins = unf_inputs P pb ins.
+  forall pv ins rins, resolve_inputs e p ins = Some rins -> unf_inputs pv G gb rins = unf_inputs pv P pb ins.
 Proof.
-  intros Hn Hb ins rins H. unfold unf_inputs, norm_inputs. generalize 0 as k.
-  revert rins H. induction ins as [|i r IH]; simpl; intros rins H k.
-  - injection H as <-. reflexivity.
-  - destruct (resolve e p (in_src i)) as [s|] eqn:Es; [|discriminate].
-    destruct (resolve_inputs e p r) as [r'|] eqn:Er; [|discriminate].
-    injection H as <-. simpl. rewrite (unf_src_resolve G P gb pb e p Hn Hb _ _ Es), (IH r' eq_refl). reflexivity.
+  intros Hn Hb pv ins rins H. unfold unf_inputs, norm_inputs, key_inputs.
+  destruct pv; generalize 0 as k; revert rins H; induction ins as [|i r IH]; simpl; intros rins H k;
+    try (injection H as <-; reflexivity);
+    (destruct (resolve e p (in_src i)) as [s|] eqn:Es; [|discriminate]);
+    (destruct (resolve_inputs e p r) as [r'|] eqn:Er; [|discriminate]);
+    injection H as <-; simpl; rewrite (unf_src_resolve G P gb pb e p Hn Hb _ _ Es), (IH r' eq_refl); reflexivity.
 Qed.
 
 (* every bind statement of the program has been executed *)
@@ -507,7 +515,7 @@ Definition binds_done (prog : list stmt) (done : list nat) : Prop :=
 
 Lemma graph_unfolds_to_program prog done w :
   WInv prog done w -> single_bind prog -> binds_done prog done ->
-  forall fuel l i, alookup l (w_env w) = Some i -> gunf w fuel i = punf prog fuel l.
+  forall fuel l i, alookup l (w_env w) = Some i -> gunf false w fuel i = punf false prog fuel l.
 Proof.
   intros I Hsb Hbd.
   assert (Hb : forall h, match alookup h (w_binds w) with
@@ -525,8 +533,10 @@ Proof.
   cbn [gunf punf]. rewrite A, B. unfold site_of. rewrite D1, D2, D3, D4.
   f_equal.
   - destruct (interns d) eqn:X; auto.
-  - unfold unf_inputs at 1. rewrite N. fold (unf_inputs (gunf w f) (fun h => alookup h (w_binds w)) rins).
-    apply (unf_inputs_resolve (gunf w f) (punf prog f) (fun h => alookup h (w_binds w)) (bind_of prog) (w_env w) (w_phs w)); auto.
+  - unfold unf_inputs at 1. cbv iota. rewrite N.
+    change (unf_inputs false (gunf false w f) (fun h => alookup h (w_binds w)) rins =
+            unf_inputs false (punf false prog f) (bind_of prog) ins).
+    apply (unf_inputs_resolve (gunf false w f) (punf false prog f) (fun h => alookup h (w_binds w)) (bind_of prog) (w_env w) (w_phs w)); auto.
 Qed.
 
 (* packaged for a complete run: the order executes every statement exactly once *)
@@ -536,7 +546,7 @@ Definition complete_order (prog : list stmt) (order : list nat) : Prop :=
 Lemma run_unfolds sh prog order w :
   complete_order prog order -> single_bind prog -> wire_prog sh prog order = Ok w ->
   forall l d ins, nth_error prog l = Some (StNode d ins) ->
-  exists i, alookup l (w_env w) = Some i /\ forall fuel, gunf w fuel i = punf prog fuel l.
+  exists i, alookup l (w_env w) = Some i /\ forall fuel, gunf false w fuel i = punf false prog fuel l.
 Proof.
   intros [Hnd Hall] Hsb Hw l d ins Hn.
   pose proof (wire_prog_inv sh prog order w Hnd Hw) as I.
@@ -555,7 +565,7 @@ Lemma intern_preserves_dataflow prog order w1 w0' :
   wire_prog true prog order = Ok w1 -> wire_prog false prog order = Ok w0' ->
   forall l d ins, nth_error prog l = Some (StNode d ins) ->
   exists i1 i0, alookup l (w_env w1) = Some i1 /\ alookup l (w_env w0') = Some i0 /\
-                forall fuel, gunf w1 fuel i1 = gunf w0' fuel i0.
+                forall fuel, gunf false w1 fuel i1 = gunf false w0' fuel i0.
 Proof.
   intros Hc Hsb H1 H0 l d ins Hn.
   destruct (run_unfolds true prog order w1 Hc Hsb H1 l d ins Hn) as (i1 & A1 & B1).
@@ -569,7 +579,7 @@ Lemma order_independent_unfold prog o1 o2 w1 w2 :
   wire_prog true prog o1 = Ok w1 -> wire_prog true prog o2 = Ok w2 ->
   forall l d ins, nth_error prog l = Some (StNode d ins) ->
   exists i1 i2, alookup l (w_env w1) = Some i1 /\ alookup l (w_env w2) = Some i2 /\
-                forall fuel, gunf w1 fuel i1 = gunf w2 fuel i2.
+                forall fuel, gunf false w1 fuel i1 = gunf false w2 fuel i2.
 Proof.
   intros Hc1 Hc2 Hsb H1 H2 l d ins Hn.
   destruct (run_unfolds true prog o1 w1 Hc1 Hsb H1 l d ins Hn) as (i1 & A1 & B1).
@@ -585,7 +595,7 @@ Lemma run_shared_same_config sh prog order w l1 l2 i :
     nth_error prog l1 = Some (StNode d1 ins1) /\ nth_error prog l2 = Some (StNode d2 ins2) /\
     resolve_inputs (w_env w) (w_phs w) ins1 = Some r1 /\ resolve_inputs (w_env w) (w_phs w) ins2 = Some r2 /\
     nd_def d1 = nd_def d2 /\ nd_sch d1 = nd_sch d2 /\ nd_scal d1 = nd_scal d2 /\
-    norm_inputs r1 = norm_inputs r2 /\
+    key_inputs r1 = key_inputs r2 /\
     (l1 <> l2 -> interns d1 = true /\ interns d2 = true).
 Proof.
   intros Hnd Hw. eapply shared_same_config. eapply wire_prog_inv; eauto.
@@ -620,4 +630,45 @@ Proof.
   destruct (kahn g) as [o| |]; try (split; [discriminate | congruence]).
   - destruct (emit_from w 0 (w_insts w)); split; try discriminate; try congruence.
   - split; auto.
+Qed.
+
+(* ------------------------------------------------------------------ REFUTED: the passive marker *)
+(* Witnesses for the two statements that fail because the key does not contain the Passive tag. *)
+Definition w_src (s : Z) : ndef := {| nd_def := 0; nd_sch := [1%Z]; nd_scal := Some [s]; nd_uniq := false; nd_push := false |}.
+Definition w_add : ndef := {| nd_def := 3; nd_sch := [1%Z]; nd_scal := None; nd_uniq := false; nd_push := false |}.
+Definition w_in (l : nat) (pa : bool) : input := {| in_src := SPeer l []; in_tpath := []; in_rank := true; in_passive := pa |}.
+Definition w_prog : list stmt :=
+  [StNode (w_src 7) []; StNode (w_src 8) []; StNode w_add [w_in 0 true; w_in 1 false]; StNode w_add [w_in 0 false; w_in 1 false]].
+
+Lemma passive_marker_distinct_refuted :
+  exists prog order w l1 l2 i d1 ins1 d2 ins2,
+    NoDup order /\ wire_prog true prog order = Ok w /\ l1 <> l2 /\
+    alookup l1 (w_env w) = Some i /\ alookup l2 (w_env w) = Some i /\
+    nth_error prog l1 = Some (StNode d1 ins1) /\ nth_error prog l2 = Some (StNode d2 ins2) /\
+    map in_passive ins1 <> map in_passive ins2.
+Proof.
+  destruct (wire_prog true w_prog [0; 1; 2; 3]) as [w|c] eqn:E; [|vm_compute in E; discriminate].
+  exists w_prog, [0; 1; 2; 3], w, 2, 3, 2, w_add, [w_in 0 true; w_in 1 false], w_add, [w_in 0 false; w_in 1 false].
+  vm_compute in E. injection E as <-.
+  split; [apply nodupb_NoDup; reflexivity|].
+  repeat split; try reflexivity; try discriminate.
+Qed.
+
+Lemma order_independent_with_passive_refuted :
+  exists prog o1 o2 w1 w2 l i1 i2 fuel,
+    complete_order prog o1 /\ complete_order prog o2 /\ single_bind prog /\
+    wire_prog true prog o1 = Ok w1 /\ wire_prog true prog o2 = Ok w2 /\
+    alookup l (w_env w1) = Some i1 /\ alookup l (w_env w2) = Some i2 /\
+    gunf true w1 fuel i1 <> gunf true w2 fuel i2.
+Proof.
+  destruct (wire_prog true w_prog [0; 1; 2; 3]) as [w1|c] eqn:E1; [|vm_compute in E1; discriminate].
+  destruct (wire_prog true w_prog [0; 1; 3; 2]) as [w2|c] eqn:E2; [|vm_compute in E2; discriminate].
+  exists w_prog, [0; 1; 2; 3], [0; 1; 3; 2], w1, w2, 2, 2, 2, 1.
+  vm_compute in E1. injection E1 as <-. vm_compute in E2. injection E2 as <-.
+  assert (Hc : forall o, nodupb o = true -> forallb (fun l => memb l o) (seq 0 (length w_prog)) = true -> complete_order w_prog o).
+  { intros o H1 H2. split; [apply nodupb_NoDup; exact H1|]. intros l Hl.
+    rewrite forallb_forall in H2. apply memb_In. apply H2. apply in_seq. lia. }
+  split; [apply Hc; reflexivity|]. split; [apply Hc; reflexivity|].
+  split; [intros h l p l' p' H; simpl in H; intuition discriminate|].
+  repeat split; try reflexivity. vm_compute. discriminate.
 Qed.
